@@ -113,3 +113,14 @@ fire("C16", CLI, "        json_data = code_data.to_json_data()", "        json_d
 fire("C16", CLI, "    if len([x for x in [file, cmd, mod, eval_] if x is not None]) != 1:", "    if len([x for x in [file, cmd, mod] if x is not None]) != 1:")
 fire("C16", CLI, "    if len([x for x in [file, cmd, mod, eval_] if x is not None]) != 1:", "    if len(list(filter(None, [file, cmd, mod, eval_]))) != 1:", "the original defect")
 silent(["C16"], CLI, "    if len([x for x in [file, cmd, mod, eval_] if x is not None]) != 1:", "    if sum(x is not None for x in [file, cmd, mod, eval_]) != 1:", "equivalent spelling")
+# ---- C03
+fire("C03", B, "return 1 if arg <= 0xFF else 2 if arg <= 0xFFFF else 3 if arg <= 0xFFFFFF else 4", "return 1 if arg < 0xFF else 2 if arg <= 0xFFFF else 3 if arg <= 0xFFFFFF else 4")
+fire("C03", B, "bytes_.append((arg_value >> (8 * i)) & 0xFF)", "bytes_.append((arg_value >> (4 * i)) & 0xFF)")
+fire("C03", B, "                        and n_instructions != _instrsize(new_arg_value)\n", "                        and n_instructions < _instrsize(new_arg_value) - 1\n")
+fire("C03", B, "            n_args = instruction._n_args_override or _instrsize(arg_value)\n            # Duplicate", "            n_args = _instrsize(arg_value)\n            # Duplicate")
+fire("C03", B, "    constants = FromArgs[ConstantValue](_hash_fn=constant_key)", "    constants = FromArgs[ConstantValue]()")
+fire("C03", B, "        if sorted(self._i_to_arg) != list(range(len(self._i_to_arg))):", "        if self._i_to_arg and max(self._i_to_arg) < len(self._i_to_arg) - 1:")
+fire("C03", B, "            assert self._hash_fn(self._i_to_arg[i]) == self._hash_fn(\n                arg\n            ), f\"Two different args at index {i}\"", "            assert self._i_to_arg[i] == arg", "the original defect")
+silent(["C03", "C06", "C09"], B, "        if sorted(self._i_to_arg) != list(range(len(self._i_to_arg))):", "        if set(self._i_to_arg) != set(range(len(self._i_to_arg))):", "equivalent guard")
+silent(["C03"], B, "        if sorted(self._i_to_arg) != list(range(len(self._i_to_arg))):", "        if self._i_to_arg and max(self._i_to_arg) != len(self._i_to_arg) - 1:", "equivalent guard (keys are distinct)")
+silent(["C03"], B, "return 1 if arg <= 0xFF else 2 if arg <= 0xFFFF else 3 if arg <= 0xFFFFFF else 4", "return 1 if arg < 0x100 else 2 if arg < 0x10000 else 3 if arg < 0x1000000 else 4", "same thresholds")
